@@ -127,6 +127,11 @@ def check(ctx):
     from .C36 import distributive_rules
 
     distributive_rules(ctx)
+    # ---------------- Assign squash: a key assigned twice keeps its first position (pandas), the later value wins
+    rc_ = ctx.model.module("dask/dataframe/dask_expr/_expr.py").func("Assign._remove_common_columns")
+    br = [n for n in walk_no_nested(rc_) if isinstance(n, ast.If) and unparse(n.test) == "set(self.keys) & set(other.keys)"]
+    ok = len(br) == 1 and bool(find("operands = [[k, new.pop(k, v)] for (k, v) in zip(other.keys, other.vals)]", br[0])) and bool(find("new = dict(zip(self.keys, self.vals))", br[0])) and bool(find("operands.extend(([k, v] for (k, v) in new.items()))", br[0])) and any(unparse(r.value) == "[other.frame] + list(flatten(operands))" for r in returns(br[0]))
+    ctx.ob("ALG.assign-squash.order", rc_, "overlapping keys: other's keys stay in place with the later value substituted, remaining new keys are appended", ok, "" if ok else "the repeated key moves to the end: computed column order differs from the metadata and from pandas")
 
 
 VARIANTS = [
